@@ -115,19 +115,28 @@ def Rrdp.applyUpdated (r : Rrdp) (truncate rnd : Nat) : Rrdp :=
 
 /-! ### retention by number and age -/
 
-/-- The loop of `find_deltas_truncate_age`.  `none`: `max_nr - 1` underflows (`max_nr = 0`) when
-the second condition is evaluated – a panic in builds with overflow checks; without them the
-subtraction wraps and `max_nr` is never reached. -/
-def truncLoop (minNr maxNr : Nat) : Nat → List (Bool × Bool) → Option Nat
-  | keep, [] => some keep
+/-- The loop of `find_deltas_truncate_age`; `max_nr.saturating_sub(1)` is `maxNr - 1` on `Nat`
+(fix bf93c0cb). -/
+def truncLoop (minNr maxNr : Nat) : Nat → List (Bool × Bool) → Nat
+  | keep, [] => keep
   | keep, (young, old) :: rest =>
       if keep < minNr || young then truncLoop minNr maxNr (keep + 1) rest
-      else if maxNr == 0 then none
-      else if keep == maxNr - 1 || old then some keep
+      else if keep == maxNr - 1 || old then keep
       else truncLoop minNr maxNr (keep + 1) rest
 
-def findTruncateAge (minNr maxNr : Nat) (ages : List (Bool × Bool)) : Option Nat :=
+def findTruncateAge (minNr maxNr : Nat) (ages : List (Bool × Bool)) : Nat :=
   truncLoop minNr maxNr 0 ages
+
+/-- PINNED TREE (before fix bf93c0cb), kept as a counter-model only: `max_nr - 1` on `usize`
+underflows for `max_nr = 0` when the second condition is evaluated (`none` = panic in builds
+with overflow checks; without them it wraps and `max_nr` is never reached). -/
+def truncLoopPinned (minNr maxNr : Nat) : Nat → List (Bool × Bool) → Option Nat
+  | keep, [] => some keep
+  | keep, (young, old) :: rest =>
+      if keep < minNr || young then truncLoopPinned minNr maxNr (keep + 1) rest
+      else if maxNr == 0 then none
+      else if keep == maxNr - 1 || old then some keep
+      else truncLoopPinned minNr maxNr (keep + 1) rest
 
 /-- `update_rrdp_needed` is `Yes` (for an interval of zero seconds): some publisher has a
 non-empty set of staged elements. -/
